@@ -554,6 +554,15 @@ type vdmeResult struct {
 
 var vdmeGoroutineRe = regexp.MustCompile(`^goroutine (\d+) \[([^\],]+)`)
 
+func vdmeDump() string {
+	for n := 8 << 20; ; n *= 2 {
+		buf := make([]byte, n)
+		if m := runtime.Stack(buf, true); m < n || n >= 256<<20 {
+			return string(buf[:m])
+		}
+	}
+}
+
 func vdmeGoroutineID() string {
 	buf := make([]byte, 64)
 	n := runtime.Stack(buf, false)
@@ -687,7 +696,8 @@ func (w *vdmWorld) vdmeDirect(c vdmeCall, d time.Duration) vdmeResult {
 		case g = <-gid:
 		default:
 		}
-		on := vdmeBlockedOn(r.Stack, g)
+		// (vlib's dump is capped at 1 MiB, too little once wedged daemons have been abandoned)
+		on := vdmeBlockedOn(vdmeDump(), g)
 		if !strings.HasPrefix(on, "sync.Mutex") && !strings.HasPrefix(on, "sync.RWMutex") {
 			// not waiting for a lock: on a busy machine the call may just be slow; give it more time
 			select {
@@ -695,8 +705,13 @@ func (w *vdmWorld) vdmeDirect(c vdmeCall, d time.Duration) vdmeResult {
 				out.slow = true
 				return out
 			case <-time.After(4 * d):
-				buf := make([]byte, 1<<20)
-				on = vdmeBlockedOn(string(buf[:runtime.Stack(buf, true)]), g)
+				if g == "" {
+					select {
+					case g = <-gid:
+					default:
+					}
+				}
+				on = vdmeBlockedOn(vdmeDump(), g)
 			}
 		}
 		return vdmeResult{res: "blocked", on: on}
@@ -1090,8 +1105,8 @@ func (l *vdmeLane) run(c vdmeCall) {
 		return
 	}
 	cls := c.EP + "/" + c.GM + "/" + c.Body
-	if l.quick && l.stuck[cls] >= 2 {
-		return // quick tier: a request class that wedged two daemons in this node state is not sent a third time
+	if (l.quick && l.stuck[cls] >= 2) || l.stuck[cls] >= 6 {
+		return // a request class that wedged two (quick) / six (thorough) daemons in this node state is not sent again
 	}
 	l.calls++
 	w := l.w
@@ -1175,7 +1190,7 @@ func TestVerifEndpoints(t *testing.T) {
 	shapes := vdmeShapes(quick)
 	nrand := 0
 	if !quick {
-		nrand = 400
+		nrand = 300
 	}
 	only := os.Getenv("VERIF_ONLY") // "ep/body" filter, for replays
 	states := []string{"fresh", "proposal", "running", "stopped"}
@@ -1290,9 +1305,7 @@ func vdmeConcScenario(t *testing.T, tr *vdmeTrace, sch *crypto.Scheme, ns string
 	})
 	t2, t2on := "done", "-"
 	if !t2done {
-		buf := make([]byte, 1<<20)
-		n := runtime.Stack(buf, true)
-		t2, t2on = "blocked", vdmeStackOf(string(buf[:n]), "storeDKGOutput")
+		t2, t2on = "blocked", vdmeStackOf(vdmeDump(), "storeDKGOutput")
 	}
 	probes := w.vdmeRunProbesD(c, 700*time.Millisecond)
 	if r1.res == "blocked" || !t2done {
